@@ -83,6 +83,9 @@ type Call struct {
 	State   string // open | executed | refunded
 	Timeout uint64
 	FromMsg bool
+	// ResultParked: the external chain's result for this call has been observed and is waiting to be executed; from
+	// then on the result settles the call, the timeout clean-up leaves it alone
+	ResultParked bool
 }
 
 type ExtChain struct {
@@ -757,6 +760,9 @@ func (s *Spec) observeHeightEffects(c *explore.State, ch string, h uint64) {
 		if call.Timeout > h {
 			break // the implementation stops at the first call that has not timed out
 		}
+		if call.ResultParked {
+			continue
+		}
 		s.refundCall(m, call)
 	}
 }
@@ -830,6 +836,9 @@ func (s *Spec) callResultOp(n uint64, success bool) explore.Op {
 			res(c, false)
 			c.Violate("execution-claim-accepted", s.sig("bridge-call-result-claim-rejected"), r.String())
 			return
+		}
+		if call.State == "open" {
+			call.ResultParked = true // the observed result is parked before the timeout clean-up of this event runs
 		}
 		s.observeHeightEffects(c, ch, m.ExtH[ch])
 		er := s.w.CallABI(c.Ctx, s.w.A("rel"), cctypes.GetAddress(), cctypes.GetABI(), nil, 1_000_000, "executeClaim", ch, new(big.Int).SetUint64(en))
